@@ -209,8 +209,12 @@ def l1_run(ctx, algo, spec, answers=None):
     separable = all(o["pair"] is None for o in spec["obj"])
     brute = R.brute_min_obj(prob, cand, k) if algo == SORT else None
 
+    n = len(cand)
+    budget = 200 + 4 * (n ** k) * k * n     # > evaluations of any search whose every accepted move strictly improves (cv, score)
+
     def run(ch):
         h = R.InitialDrawHandler(ch)
+        prob.n_evalfn, prob.limit = 0, budget
         if algo == HILL:
             opt = cls(rng=ScriptedRandomState(h) if rs else ScriptedGenerator(h))
         else:
@@ -221,6 +225,7 @@ def l1_run(ctx, algo, spec, answers=None):
             err = None
         except Exception as e:  # handed to guard below
             soln, err = None, e
+        prob.limit = None
         return soln, err, h
 
     if answers is not None:
@@ -663,7 +668,7 @@ def l3_hyper(tier):
 
 
 def l3_seeds(tier):
-    return list(range(32 if tier == "thorough" else 4))
+    return list(range(16 if tier == "thorough" else 4))
 
 
 @contextlib.contextmanager
@@ -693,7 +698,7 @@ def l3_run(ctx, cname, tag, spec, ps, ng, pin):
     before = R.snapshot(prob)
     degenerate = kind == "subset" and spec["k"] == len(spec["cand"])
     seen = {}
-    real_min = mod.minimize
+    real_min = getattr(mod, "minimize", None)      # pymoo.optimize.minimize as imported by the wrapper module
 
     def spy(*a, **k):
         res = real_min(*a, **k)
@@ -705,14 +710,16 @@ def l3_run(ctx, cname, tag, spec, ps, ng, pin):
     ctx.count(f"L3:runs:{cname}")
     soln = err = None
     sink = io.StringIO()
-    mod.minimize = spy
+    if real_min is not None:
+        mod.minimize = spy              # observation only: was pymoo's result empty (no feasible individual)?
     try:
         with pinned_generators(pin), contextlib.redirect_stdout(sink):
             soln = cls(ngen=ng, pop_size=ps, **extra).minimize(prob)
     except Exception as e:
         err = e
     finally:
-        mod.minimize = real_min
+        if real_min is not None:
+            mod.minimize = real_min
     P = f"L3:{cname}:" + ("no-feasible-result:" if seen.get("none") else "") + ("full-set:" if degenerate else "")
 
     def oracle():
@@ -786,12 +793,7 @@ def _l3_shards(tier, seed):
         probs = l3_problems(seed, kind, multi, tier)
         per = (2 if heavy else 4) if tier == "quick" else 1
         for i in range(0, len(probs), per):
-            if tier == "thorough":
-                half = len(seeds) // (4 if heavy else 2)
-                for j in range(0, len(seeds), half):
-                    out.append(("L3", cname, probs[i:i + per], hyp, seeds[j:j + half]))
-            else:
-                out.append(("L3", cname, probs[i:i + per], hyp, seeds))
+            out.append(("L3", cname, probs[i:i + per], hyp, seeds))
     return out
 
 
